@@ -308,21 +308,42 @@ func (s *Sim) FetchNs(u, w int, ns *table.NeighborState) {
 // Dead: u stops hearing from w; the dead interval elapses for w only (every other neighbor of u
 // keeps pinging on its current face); the dead check runs. wName may be any router name.
 func (s *Sim) Dead(u int, wName enc.Name) bool {
+	return s.DeadMany(u, []enc.Name{wName}) > 0
+}
+
+// DeadMany: u stops hearing from ALL the given routers at once; the dead interval elapses for them
+// together and ONE checkDeadNeighbors sweep finds them all. Returns how many of them had a
+// neighbor state (0: the sweep is not run).
+func (s *Sim) DeadMany(u int, names []enc.Name) int {
 	nu := s.Nodes[u]
 	nt := nu.R.VerifNeighbors()
-	if nt.Get(wName) == nil {
+	gone := func(n enc.Name) bool {
+		for _, x := range names {
+			if x.Equal(n) {
+				return true
+			}
+		}
 		return false
+	}
+	k := 0
+	for _, n := range names {
+		if nt.Get(n) != nil {
+			k++
+		}
+	}
+	if k == 0 {
+		return 0
 	}
 	time.Sleep(nu.Cfg.RouterDeadInterval() + time.Millisecond)
 	for _, ns := range nt.GetAll() {
-		if ns.Name.Equal(wName) {
+		if gone(ns.Name) {
 			continue
 		}
 		ns.RecvPing(ns.VerifFaceId(), false) // same face: only refreshes lastSeen
 	}
 	nu.R.VerifCheckDeadNeighbors()
 	s.Settle()
-	return true
+	return k
 }
 
 // DumpRib renders the observable routing state of router u in canonical sorted form:
